@@ -3818,7 +3818,7 @@ class SSHClientConnection(SSHConnection):
             self._get_pkcs11_keys = False
 
         while True:
-            if not self._client_keys:
+            if not self._client_keys and not self._saved_rsa_key:
                 result = self._owner.public_key_auth_requested()
 
                 if inspect.isawaitable(result):
